@@ -448,7 +448,10 @@ def div_literals(expr, fp_arithmetic=False):
         denominator = sym.IntLiteral(expr.denominator.value / div)
 
     elif isinstance(expr.numerator, sym.Product):
-        value, _, remaining_components = separate_coefficients(expr.numerator, fp_arithmetic=fp_arithmetic)
+        value, has_float, remaining_components = separate_coefficients(expr.numerator, fp_arithmetic=fp_arithmetic)
+        if has_float:
+            # A floating point coefficient cannot be reduced against the integer denominator
+            return expr.numerator if expr.denominator == 1 else expr
         div = gcd(value, expr.denominator.value)
         numerator = mul_literals(
             sym.Product((sym.IntLiteral(value / div), *remaining_components)), fp_arithmetic=fp_arithmetic
